@@ -350,17 +350,22 @@ def run_cases(pid, cases, tier, seed, t0, assumptions, extra_cov=None, pre_resul
     ensure_forc()
     ensure_vmrun()
     jobs = [(ci, prof) for ci, c in enumerate(cases) for prof in c.profiles]
-
-    def one(j):
-        ci, prof = j
+    uniq = {}
+    for ci, prof in jobs:
         c = cases[ci]
-        return j, build_package(c.pkg_name(), c.source, prof, getattr(c, 'env', None), extra_toml=getattr(c, 'extra_toml', ''))
+        uniq.setdefault((c.pkg_name(), c.source, prof), []).append((ci, prof))
+
+    def one(key):
+        name, source, prof = key
+        c = cases[uniq[key][0][0]]
+        return key, build_package(name, source, prof, getattr(c, 'env', None), extra_toml=getattr(c, 'extra_toml', ''))
     tb = time.time()
     builds = {}
     with ThreadPoolExecutor(max_workers=NCPU) as ex:
-        for j, b in ex.map(one, jobs):
-            builds[j] = b
-    log(f'[build] {len(jobs)} package builds in {time.time() - tb:.1f}s ({sum(1 for b in builds.values() if not b.ok)} failed)')
+        for key, b in ex.map(one, list(uniq.keys())):
+            for j in uniq[key]:
+                builds[j] = b
+    log(f'[build] {len(uniq)} package builds in {time.time() - tb:.1f}s ({sum(1 for b in builds.values() if not b.ok)} failed)')
     _G['cases'] = cases
     _G['builds'] = builds
     ctx = mp.get_context('fork')
